@@ -74,6 +74,7 @@ func checkC15(c *Ctx) {
 	c.Notes = append(c.Notes, fmt.Sprintf("B-IDX: %d sites, %d compiler, %d LinBounds, %d unproven", st.sites, st.compiler, st.lin, st.unproved))
 	c18Panics(c, scope)
 	c15MsgType(c, scope)
+	c15Complete(c, scope)
 	_ = token.NoPos
 }
 
@@ -215,3 +216,171 @@ func c15MsgType(c *Ctx, scope []*ssa.Function) {
 	}
 }
 
+
+// isStatusStore: atomic.StoreUint32(&c.handshakeStatus, 1)
+func isStatusStore(in ssa.Instruction) bool {
+	call, ok := in.(*ssa.Call)
+	if !ok || calleeID(&call.Call) != "sync/atomic.StoreUint32" || len(call.Call.Args) != 2 {
+		return false
+	}
+	fa, ok := call.Call.Args[0].(*ssa.FieldAddr)
+	if !ok || fieldName(fa.X.Type(), fa.Field) != "handshakeStatus" {
+		return false
+	}
+	k, ok := constInt(call.Call.Args[1])
+	return ok && k == 1
+}
+
+// c15Complete: the handshake is marked complete exactly on the paths that return success.
+func c15Complete(c *Ctx, scope []*ssa.Function) {
+	n := 0
+	for _, f := range scope {
+		var stores []ssa.Instruction
+		instrsOf(f, func(_ *ssa.BasicBlock, in ssa.Instruction) {
+			if isStatusStore(in) {
+				stores = append(stores, in)
+			}
+		})
+		if len(stores) == 0 {
+			continue
+		}
+		n++
+		c.Evals++
+		spec, has := defaultResultSpec(f)
+		if !has || spec.kind != "error" {
+			c.Undecided("G-C15-complete", fname(f), "completion mark", "function has no error result", f.Pos())
+			continue
+		}
+		ex := successExits(f, spec)
+		// (i) every successful return has passed the store
+		cutBlocks := map[*ssa.BasicBlock]bool{}
+		for _, s := range stores {
+			cutBlocks[s.Block()] = true
+		}
+		cut := map[edge]bool{}
+		for _, b := range f.Blocks {
+			for _, sc := range b.Succs {
+				if cutBlocks[sc] {
+					cut[edge{b, sc}] = true
+				}
+			}
+		}
+		ok1, where := true, ""
+		if !cutBlocks[f.Blocks[0]] {
+			if r, w := canReachSuccess(f.Blocks[0], nil, ex, cut); r {
+				ok1, where = false, c.P.pos(lastPos(w))
+			}
+		}
+		c.Check(ok1, "G-C15-complete", fname(f), "every successful return has marked the handshake complete", "", "a successful return at "+where+" is reachable without setting handshakeStatus (Conn.Handshake panics with 'handshake should have had a result')", stores[0].Pos())
+		// (ii) after the mark nothing can fail
+		ok2 := true
+		where = ""
+		for _, s := range stores {
+			seen := reach([]*ssa.BasicBlock{s.Block()}, nil)
+			for b := range seen {
+				if ret, ok := b.Instrs[len(b.Instrs)-1].(*ssa.Return); ok {
+					if !ex.blocks[b] {
+						isEdgeSuccess := false
+						for e := range ex.edges {
+							if e.to == b {
+								isEdgeSuccess = true
+							}
+						}
+						if !isEdgeSuccess {
+							ok2 = false
+							where = c.P.pos(ret.Pos())
+						}
+					}
+				}
+			}
+		}
+		c.Check(ok2, "G-C15-complete", fname(f), "no error return after the handshake was marked complete", "", "after handshakeStatus is set the function can still return an error at "+where+": the connection would report a completed handshake that failed", stores[0].Pos())
+		// (iii) every step's error is returned
+		c15Errors(c, f, spec)
+	}
+	if n < 4 {
+		c.Undecided("G-C15-complete", "handshake closure", "functions that mark completion", fmt.Sprintf("only %d found", n), token.NoPos)
+	}
+}
+
+var c15DropOK = map[string]string{
+	"(*gmtls.Conn).sendAlert":       "best-effort notification of the peer; the caller returns its own error right after",
+	"(*gmtls.Conn).sendAlertLocked": "best-effort notification of the peer; the caller returns its own error right after",
+}
+
+// c15Errors: in f, the error of every call to a repo function is either returned or tested by a rejecting check
+func c15Errors(c *Ctx, f *ssa.Function, spec resultSpec) {
+	ord := map[string]int{}
+	for _, ci := range allCalls(f) {
+		call, ok := ci.(*ssa.Call)
+		if !ok {
+			continue
+		}
+		sc := call.Call.StaticCallee()
+		if sc == nil || !inRepo(sc) {
+			continue
+		}
+		res := sc.Signature.Results()
+		if res.Len() == 0 || !isErrorType(res.At(res.Len()-1).Type()) {
+			continue
+		}
+		name := fname(sc)
+		ord[name]++
+		construct := fmt.Sprintf("error of %s #%d is returned", name, ord[name])
+		c.Evals++
+		var errv ssa.Value
+		if res.Len() == 1 {
+			errv = call
+		} else {
+			for _, u := range *call.Referrers() {
+				if ex, ok := u.(*ssa.Extract); ok && ex.Index == res.Len()-1 {
+					errv = ex
+				}
+			}
+		}
+		used := errv != nil && errv.Referrers() != nil && len(*errv.Referrers()) > 0
+		if used {
+			// DebugRef only?
+			used = false
+			for _, u := range *errv.Referrers() {
+				if _, isDbg := u.(*ssa.DebugRef); !isDbg {
+					used = true
+				}
+			}
+		}
+		if !used {
+			if why, ok := c15DropOK[name]; ok {
+				c.Holds("G-C15-err", fname(f), construct, "dropped by design: "+why, call.Pos())
+			} else {
+				c.Violated("G-C15-err", fname(f), construct, "the error is discarded: a failing step would not abort the handshake", call.Pos())
+			}
+			continue
+		}
+		// returned directly (possibly through the result spill of a function with defer)
+		direct := false
+		for _, u := range *errv.Referrers() {
+			switch y := u.(type) {
+			case *ssa.Return:
+				direct = true
+			case *ssa.Store:
+				if al, ok := y.Addr.(*ssa.Alloc); ok {
+					for _, u2 := range *al.Referrers() {
+						if ld, ok := u2.(*ssa.UnOp); ok {
+							for _, u3 := range *ld.Referrers() {
+								if _, ok := u3.(*ssa.Return); ok {
+									direct = true
+								}
+							}
+						}
+					}
+				}
+			}
+		}
+		if direct {
+			c.Holds("G-C15-err", fname(f), construct, "returned to the caller", call.Pos())
+			continue
+		}
+		g := evalReject(c.P, f, errCheckAtomsPhi(f, func(cl *ssa.Call) bool { return cl == call }, "step error"), spec)
+		c.Check(g.OK, "G-C15-err", fname(f), construct, g.Why, "a failing handshake step must abort the handshake: "+g.Why, call.Pos())
+	}
+}
